@@ -9,6 +9,8 @@ dst = f"/verif/seeded/{prop}-{pre.replace('-','')}m{k}"
 if os.path.exists(dst): shutil.rmtree(dst)
 os.makedirs(dst)
 shutil.copy(f"{src}/patch.diff", dst)
+if os.path.exists(f"{src}/patch.rebased.diff"):  # the original no longer applies after a later fix: commit
+    shutil.copy(f"{src}/patch.rebased.diff", dst)
 shutil.copytree(f"{src}/demo", f"{dst}/demo")
 if os.path.exists(f"{src}/README.md"): shutil.copy(f"{src}/README.md", dst)
 log = open(f"{os.path.dirname(src)}/verify_m{k}.log").read() if os.path.exists(f"{os.path.dirname(src)}/verify_m{k}.log") else ""
@@ -21,7 +23,7 @@ meta = {
  "confirmed_by_me": {"worktree": f"/tmp/wt/{prop} (scratch, removed)", "command": f"tools/verify_mutant.sh {prop} {k} {pre}",
    "demo_on_clean_tree_exit": int(ex.get("clean_demo_exit", -1)), "patch_applies_exit": int(ex.get("apply_exit", -1)),
    "demo_on_changed_tree_exit": int(ex.get("mutated_demo_exit", -1)), "existing_suite": base[-1] if base else "?"},
- "checks_run": f"tools/run_mutant.sh seeded/{prop}-m{k}/patch.diff <check ids> (git apply on /repo, ./check.sh <id> quick, git checkout)",
+ "checks_run": "tools/run_mutant.sh <patch> <check ids> (patch applied to a scratch worktree of /repo, quick checks against it, worktree removed)",
  "detected_by": [] if det == "none" else det.split(","),
 }
 json.dump(meta, open(f"{dst}/meta.json", "w"), indent=1)
